@@ -143,6 +143,25 @@ def _subst(text, mapping):
   return text
 
 
+def _local_aliases(fn_node):
+  """Locals with exactly one definition that is a plain name / dotted
+  attribute / constant (key temporaries such as `tls_key = Cls._KEY`)."""
+  out = {}
+  counts = {}
+  for n in ast.walk(fn_node):
+    if isinstance(n, ast.Assign) and len(n.targets) == 1 and isinstance(n.targets[0], ast.Name):
+      nm = n.targets[0].id
+      counts[nm] = counts.get(nm, 0) + 1
+      if isinstance(n.value, (ast.Name, ast.Attribute, ast.Constant)) and A.dotted(n.value) or isinstance(n.value, ast.Constant):
+        out[nm] = A.unparse(n.value)
+    elif isinstance(n, (ast.AugAssign, ast.For, ast.With, ast.NamedExpr)):
+      for t in ([n.target] if hasattr(n, 'target') else []):
+        for nm in A.assigned_names(t):
+          counts[nm] = counts.get(nm, 0) + 2
+  params = set(A.param_names(fn_node))
+  return {k: v for k, v in out.items() if counts.get(k) == 1 and k not in params}
+
+
 def ops_at(node) -> List[Op]:
   """State operations performed at a CFG node, including those of a small
   private helper it calls (one level): the helper's operations are reported at
@@ -153,6 +172,10 @@ def ops_at(node) -> List[Op]:
   if ctx is None:
     return out
   idx, func = ctx
+  own = _local_aliases(func.node)
+  if own:
+    for op in out:
+      op.key = _subst(op.key, own)
   cls = idx.enclosing_class(func)
   for call in node.calls():
     d = A.call_name(call)
@@ -184,6 +207,8 @@ def ops_at(node) -> List[Op]:
       if kw.arg:
         mapping[kw.arg] = A.unparse(kw.value)
         argmap[kw.arg] = kw.value
+    for k_, v_ in _local_aliases(callee.node).items():
+      mapping.setdefault(k_, v_)
     g = C.cfg_of(callee.node)
     by_kind = {}
     for k in g.nodes:
